@@ -78,6 +78,9 @@ func PrepareTerm(rawToken string, body string, mode CaseMode, literal bool) (pat
 	if !f.CaseSensitive {
 		body = strings.ToLower(body)
 	}
+	if f.Normalize {
+		body = NormString(body)
+	}
 	pattern = []rune(body)
 	return
 }
